@@ -37,7 +37,7 @@ type CaseC19 struct {
 var c19Kinds = []string{"good", "empty", "truncated", "random", "subdir", "dangling-symlink", "vanishes", "symlink-to-dir"}
 
 // c19PadSizes are exact file sizes at chunk boundaries of plausible read loops.
-var c19PadSizes = []int{512, 4096, 8192, 32768, 65536, 98304, 131072}
+var c19PadSizes = []int{512, 4096, 8192, 32768, 65536, 98304, 131072, 1 << 20, 1 << 22}
 
 // c19Pad appends an unknown length-delimited field (number 1999, inside the message's extension range) so that the feed is
 // exactly n bytes long; it still parses to the same content.
@@ -557,5 +557,40 @@ func TestC19CLI(t *testing.T) {
 			path := vt.SaveFound("C19", "TestC19", c, vt.Failf("CLI output differs"))
 			t.Fatalf("VERIF-FAIL property=C19 test=TestC19CLI replay=%s\nCLI journal output differs from the journal of the good files:\n%s\nvs\n%s", path, tripsCsv, exp.TripsCsv)
 		}
+	}
+}
+
+// TestC19Large: directories with thousands of entries (beyond any listing batch or fixed buffer): mostly good files with bad
+// entries of every kind sprinkled in, names of different lengths so that lexicographic order is not numeric order.
+func TestC19Large(t *testing.T) {
+	for _, n := range []int{3000, 9000} {
+		n := n
+		t.Run(fmt.Sprint(n), func(outer *testing.T) {
+			fail := ""
+			defer func() {
+				if fail != "" {
+					outer.Fatalf("%s", fail)
+				}
+			}()
+			rapid.Check(outer, func(t *rapid.T) {
+				var c CaseC19
+				every := rapid.SampledFrom([]int{7, 50, 997}).Draw(t, "badEvery")
+				shape := rapid.SampledFrom([]string{"feed-%d.pb", "%d", "f%05d"}).Draw(t, "nameShape")
+				for i := 0; i < n; i++ {
+					kind := "good"
+					if i%every == every-1 {
+						kind = c19Kinds[1+(i/every)%(len(c19Kinds)-1)]
+					}
+					c.Entries = append(c.Entries, c19Entry(kind, fmt.Sprintf(shape, i), i%2000, i, nil))
+				}
+				c19Rec.Eval(fmt.Sprintf("large:entries>=%d", n))
+				c19Rec.NontrivialCase(vt.Fingerprint([]any{n, every, shape}), func() any {
+					return map[string]any{"entries": n, "bad_every": every, "name_shape": shape}
+				})
+				if msg := vt.Try(c19Rec, c, checkC19); msg != "" && fail == "" {
+					fail = msg
+				}
+			})
+		})
 	}
 }
